@@ -11,6 +11,14 @@ pub fn gen(r: &mut Rng) -> Value {
         "out = set 1", "exit 0", "exit 1", "exit 3", "exit 255", "exit 256", "exit 512", "exit -256", "exit abc", "exit", "nosuchcommand",
         "x = set \"unterminated", "echo hi\nexit 65536", "assert false", ":L out = set 1", "Out = set 1", "out = Set 1", ":Lbl x = set 1", "if true\nend",
     ];
+    if r.chance(1, 3) {
+        // lint: a few lines of every shape (label / output / command alone or combined, either case)
+        let shapes = [":done", ":Done", "result =", "Result =", ":reset value =", ":Reset value =", ":reset Value =", "out = set 1", "Out = set 1", "out = Set 1",
+            ":l out = set A", "set", "Set", "# Comment Only", "", "x = set \"unterminated", "!print Hi", ":l", "o = std::Set 1", "echo Hi # Trailing Comment"];
+        let n = 1 + r.below(3);
+        let lines: Vec<String> = (0..n).map(|_| r.pick(&shapes).to_string()).collect();
+        return json!({"script": lines.join("\n"), "mode": 3});
+    }
     json!({"script": r.pick(&scripts), "mode": r.below(4)})
 }
 
